@@ -317,7 +317,7 @@ def decorate(xml, rng, feats):
         if feats.get("alignfree") and P(0.5):
             comp.set("alignfree", "true")
             tags.add("alignfree")
-        if P(0.15):
+        if P(0.08):
             comp.set("fusestatic", "true")
             tags.add("fusestatic")
         if P(0.15):
@@ -858,7 +858,7 @@ def _report(P, c, name, tags, m1, m2, t1, diffs, src_frames, digits, path, extra
             diffs = [d for d in diffs if d[1] not in MASSY]
             break
     if "fusestatic" in flags and any(d[0] == "size" and d[1] in ("ngeom", "nsite", "ncam", "nlight") for d in diffs) and "<frame" in c.get("_src", "<frame"):
-        P.violation("fusestatic-element-inside-frame-of-fused-body-dropped-from-saved-xml", dict(base))
+        P.violation("fusestatic-elements-inside-frames-dropped-from-saved-xml", dict(base))
         return
     if "fusestatic" in flags and any(d[0] == "size" and d[1].startswith(("nbvh", "nbuffer")) for d in diffs) and all(d[1].startswith(("nbvh", "nbuffer")) for d in diffs if d[0] == "size"):
         P.violation("fusestatic-first-compile-keeps-bvh-nodes-that-a-recompile-does-not-have", dict(base))
@@ -907,6 +907,9 @@ def roundtrip(P, L, c, spec, m1, name, tags, src):
     except drv.MjError as e:
         msg = str(e)
         el = re.search(r"Element '(\w+)'", msg)
+        if "fusestatic" in c["_src_flags"] and ("not found" in msg or "unrecognized name" in msg) and ("<frame" in src or "<replicate" in src):
+            P.violation("fusestatic-elements-inside-frames-dropped-from-saved-xml", {"case": {k: c[k] for k in c if k != "xml"}, "model": name, "message": msg})
+            return
         P.violation("saved-text-rejected:" + re.sub(r"'[^']*'", "'..'", re.sub(r"[0-9]+", "N", msg.splitlines()[0]))[:80] + (":element-" + el.group(1) if el else ""),
                     {"case": {k: c[k] for k in c if k != "xml"}, "model": name, "message": msg, "tags": sorted(tags)})
         return
@@ -914,9 +917,10 @@ def roundtrip(P, L, c, spec, m1, name, tags, src):
     diffs, info = compare(m1, m2, digits, align=align)
     P.count("int_snap_values", info["int_snap"])
     P.count("iquat_degenerate_bodies_compared_by_tensor", info["iquat_degenerate"])
-    P.note_max("unit_class_abs_diff", info["max_unit"])
-    P.note_max("derived_class_normwise_diff", info["max_derived"])
-    src_frames = ("frame_interleaved" in tags) or (c["kind"] in ("corpus", "xml") and ("<frame" in src or "<replicate" in src or "<attach" in src))
+    if not diffs:
+        P.note_max("unit_class_abs_diff_clean_cases", info["max_unit"])
+        P.note_max("derived_class_normwise_diff_clean_cases", info["max_derived"])
+    src_frames = ("frame_interleaved" in tags) or ("fusestatic" in c["_src_flags"] and ("<frame" in src or "<replicate" in src)) or (c["kind"] in ("corpus", "xml") and ("<frame" in src or "<replicate" in src or "<attach" in src))
     if diffs:
         _report(P, c, name, tags, m1, m2, t1, diffs, src_frames, digits, path, {})
     else:
@@ -1012,8 +1016,9 @@ def _spec_worker(P, L, c):
             return P.result()
         diffs, info = compare(m1, m2, digits)
         P.count("int_snap_values", info["int_snap"])
-        P.note_max("unit_class_abs_diff", info["max_unit"])
-        P.note_max("derived_class_normwise_diff", info["max_derived"])
+        if not diffs:
+            P.note_max("unit_class_abs_diff_clean_cases", info["max_unit"])
+            P.note_max("derived_class_normwise_diff_clean_cases", info["max_derived"])
         has_frame = any(o.startswith("frame ") for o in ops)
         if diffs:
             _report(P, c, "specapi", tags, m1, m2, t1, diffs, has_frame, digits, c.get("path_mode"), {"ops": ops})
